@@ -39,6 +39,11 @@ ASSUMPTIONS = [
     'postings fed to the model are read with beancount.loader.load_file (loader/booking upstream of the tables belong to C11); '
     'the truth values of balance-free WHERE/FROM conditions and the group keys are computed by the harness from these postings',
     'queries of one process run serially; the balance memo lives on the Row since fix 960d829 (thread interleavings: C20)',
+    'translator tie (C12_source_balance, C12_source_row_init): PyMini semantics (Model/PyMini.v), the translator '
+    '(py2mini.py, src_ledger.py; the accessor parameter `context` is the receiver) and the primitives of '
+    'Model/PrimsLedger.v are trusted: Inventory.add_position = Model/Inventory.add_position on the encoded inventory '
+    'and position (what add_position reads of a posting: units.number, units.currency, cost), copy.copy = identity on '
+    'values, Inventory() = empty; the attribute set of a fresh Row is checked against the encoding on every run',
 ]
 
 RATES = ['0.5', '2', '0.25', '4', '0.8', '1.25', '0.2', '5', '1.6', '0.625', '12.5', '0.08', '10', '0.1', '8',
@@ -1177,6 +1182,38 @@ def run(tier, rng):
         except OSError:
             pass
     return {'coverage': cov, 'violations': violations}
+
+
+# --------------------------------------------------------------------------
+# translator tie (PyMini): the balance column accessor and Row.__init__
+ROW_ATTRS = ('rowid', 'posting', 'entry', 'balance', 'balance_rowid', 'balance_value')   # PrimsLedger.rowst_fields
+
+
+def _row_census():
+    """the attributes of a fresh query_env.Row are exactly the fields of Model/PrimsLedger.v's rowst_fields, the
+    running balance starts as an empty Inventory, and copy.copy of an Inventory is an equal, distinct Inventory"""
+    import copy
+    from beancount.core import inventory
+    from beanquery import query_env
+    row = query_env.Row([], {})
+    names = [k for k in vars(query_env.Row) if not k.startswith('__') and not callable(getattr(query_env.Row, k))]
+    names += [k for k in vars(row) if k not in names]
+    if sorted(names) != sorted(ROW_ATTRS):
+        raise RuntimeError(f'Row attributes {sorted(names)} differ from the encoding {sorted(ROW_ATTRS)}')
+    if not (isinstance(row.balance, inventory.Inventory) and row.balance.is_empty()):
+        raise RuntimeError('Row.balance does not start as an empty Inventory')
+    c = copy.copy(row.balance)
+    if c is row.balance or c != row.balance:
+        raise RuntimeError('copy.copy(Inventory) is not an equal, distinct Inventory')
+    return {'row_attributes': sorted(names)}
+
+
+def generate():
+    """translator tie: regenerate coq/Gen/SrcLedgerBalance.v from the source of the imported accessor (py2mini)"""
+    from . import gen_src
+    out = gen_src.generate('ledger_balance')
+    out['src_ledger_balance_row'] = _row_census()
+    return out
 
 
 def _jsonable(case):
